@@ -23,7 +23,8 @@ LEVEL_TEXT = ("5 texts x 4 encodings x 8 file names x 4 target states (missing, 
               " parse_from_file is also called with group_by_type / json_dump / mode combinations passed through to run()."
               " Every ordered pair (thorough: triple) of texts goes through parse_from_file in one process, with equal and different settings, with and without removal of the target directory in between."
               ' Wave 5: settings orders in which non-default parser settings are FOLLOWED by default or omitted ones (7 settings pairs), parser_settings=None.'
-              " Defect hunt: '<input base name>' is the file name without its LAST extension; b.c.sql and b.v2.sql in one directory are two dumps.")
+              " Defect hunt: '<input base name>' is the file name without its LAST extension; b.c.sql and b.v2.sql in one directory are two dumps."
+              " Wave 6: a file named 'sql' and a sub-directory named 'ddl' in directory mode; a CRLF file with a line break inside a literal.")
 LEVEL_NOTE = ("The sandbox runs as root: permission faults (unwritable directories) cannot be injected. Upper-case extensions and hidden "
               "files in directory mode are generated but not judged (the property does not settle them).")
 RULE = ("case = one API configuration, one CLI invocation or a pair of invocations; non-trivial = a configuration that reads a file and "
